@@ -32,6 +32,8 @@ SHIM_CONTRACTS = {
     "sparse @ object-array": "dense product toarray() @ x",
     "exp": "uninterpreted positive constant per distinct argument (+ sound axiom instances), products merged by exp(a)exp(b)=exp(a+b)",
     "1e-100 / nextafter(0,1) regularisers": "taken as 0 (their effect is <= 1e-100 absolute)",
+    "lsmr": "contract: returns the exact minimum-norm least-squares solution (computed in rationals); convergence of scipy's iterative lsmr is outside the claim",
+    "np.allclose": "evaluated on the concrete (rational) operands",
 }
 
 
@@ -206,6 +208,15 @@ class NPProxy(types.ModuleType):
 
     def isscalar(self, x):
         return isinstance(x, Sym) or _np.isscalar(x)
+
+    def allclose(self, a, b, **kw):
+        def conc(x):
+            if isinstance(x, _np.ndarray) and x.dtype == object:
+                if has_sym(x):
+                    raise core.SymError("np.allclose on symbolic values")
+                return _np.array([float(v) for v in x.flat]).reshape(x.shape)
+            return x
+        return _np.allclose(conc(a), conc(b), **kw)
 
     def nextafter(self, a, b):
         if ST.kappa_zero:
@@ -423,3 +434,85 @@ def need(obj, name):
     if not hasattr(obj, name):
         raise core.SymError("expected %s.%s in the working tree; not found" % (getattr(obj, "__name__", obj), name))
     return getattr(obj, name)
+
+
+# ----------------------------------------------------------------------------------------
+# lsmr by contract: the exact minimum-norm least-squares solution, in rationals
+# ----------------------------------------------------------------------------------------
+def _fr_matrix(A):
+    import scipy.sparse as sp
+    from scipy.sparse.linalg import LinearOperator
+    if sp.issparse(A):
+        A = A.toarray()
+    elif isinstance(A, LinearOperator):
+        A = A @ _np.eye(A.shape[1])
+    A = _np.asarray(A)
+    return [[Fraction(float(A[i, j])).limit_denominator(10**9) for j in range(A.shape[1])] for i in range(A.shape[0])]
+
+
+def _fr_mul(A, B):
+    return [[sum(A[i][k] * B[k][j] for k in range(len(B))) for j in range(len(B[0]))] for i in range(len(A))]
+
+
+def _fr_T(A):
+    return [list(r) for r in zip(*A)] if A else []
+
+
+def _fr_inv(A):
+    n = len(A)
+    M = [list(A[i]) + [Fraction(int(i == j)) for j in range(n)] for i in range(n)]
+    for c in range(n):
+        piv = next(r for r in range(c, n) if M[r][c] != 0)
+        M[c], M[piv] = M[piv], M[c]
+        pv = M[c][c]
+        M[c] = [x / pv for x in M[c]]
+        for r in range(n):
+            if r != c and M[r][c] != 0:
+                f = M[r][c]
+                M[r] = [x - f * y for x, y in zip(M[r], M[c])]
+    return [row[n:] for row in M]
+
+
+def exact_pinv_solve(A, b):
+    """minimum-norm least-squares solution of A v = b in exact rationals (full-rank factorisation A = B C)"""
+    A = [list(r) for r in A]
+    m, n = len(A), len(A[0])
+    # reduced row echelon form -> pivot columns
+    M = [list(r) for r in A]
+    pivots, r = [], 0
+    for c in range(n):
+        piv = next((i for i in range(r, m) if M[i][c] != 0), None)
+        if piv is None:
+            continue
+        M[r], M[piv] = M[piv], M[r]
+        pv = M[r][c]
+        M[r] = [x / pv for x in M[r]]
+        for i in range(m):
+            if i != r and M[i][c] != 0:
+                f = M[i][c]
+                M[i] = [x - f * y for x, y in zip(M[i], M[r])]
+        pivots.append(c)
+        r += 1
+        if r == m:
+            break
+    if not pivots:
+        return [Fraction(0)] * n
+    B = [[A[i][c] for c in pivots] for i in range(m)]          # m x r
+    C = [M[i] for i in range(len(pivots))]                      # r x n
+    Bt, Ct = _fr_T(B), _fr_T(C)
+    bcol = [[Fraction(x)] for x in b]
+    t = _fr_mul(_fr_inv(_fr_mul(Bt, B)), _fr_mul(Bt, bcol))     # (B'B)^-1 B' b
+    v = _fr_mul(Ct, _fr_mul(_fr_inv(_fr_mul(C, Ct)), t))        # C'(CC')^-1 ...
+    return [row[0] for row in v]
+
+
+def lsmr_by_contract(A, b, atol=0, btol=0, **kw):
+    """stands in for scipy.sparse.linalg.lsmr(A, b, atol=0, btol=0): contract = exact minimum-norm least-squares solution"""
+    Af = _fr_matrix(A)
+    bf = [Fraction(float(x)).limit_denominator(10**9) for x in _np.asarray(b, dtype=object).flat]
+    v = exact_pinv_solve(Af, bf)
+    out = _np.empty(len(v), dtype=object)
+    for i, x in enumerate(v):
+        out[i] = x
+    ST.events.append(("lsmr", len(Af), len(Af[0])))
+    return (out, 1, 0, 0.0, 0.0, 0.0, 0.0, 0.0)
